@@ -245,24 +245,28 @@ func c14RunE2E(prop string, cfg c14RunCfg) *c14Result {
 			w.count("containers_added_late", len(cfg.RareLate))
 			// the fault phase lasts until the cloud has been asked at
 			// least once for each of these types (bounded by polls)
+			// (lock order is g.mu before w.mu, so g is inspected without w.mu)
 			w.mu.Lock()
 			lim := w.polls + cfg.pollsFor(4000)
-			for time.Now().Before(watchdog) && w.polls < lim {
+			w.mu.Unlock()
+			for time.Now().Before(watchdog) {
 				all := true
+				g := w.curGen()
+				g.mu.Lock()
 				for _, t := range cfg.RareLate {
-					g := w.cur
-					g.mu.Lock()
 					if g.createSeen[fmt.Sprintf("type%d", t)] == 0 {
 						all = false
 					}
-					g.mu.Unlock()
 				}
-				if all {
+				g.mu.Unlock()
+				w.mu.Lock()
+				if all || w.polls >= lim {
+					w.mu.Unlock()
 					break
 				}
-				w.cond.Wait()
+				w.cond.Wait() // woken by every poll and by the 20 ms ticker
+				w.mu.Unlock()
 			}
-			w.mu.Unlock()
 		case "restart":
 			old := w.curGen()
 			// adversarial placement: prefer the moment when a crunch-run
